@@ -43,9 +43,9 @@ class C03(Check):
     level = "fault_enumeration"
     engine = "flosim"
     design_ref = "§6 C03"
-    cfg = cfg_with(nmain=(1, 4), nframes=(1, 5), naux=(0, 2), p_aux=0.3, p_caux=0.25, nslaves=(0, 1), p_fiat=0.3, p_bid=0.3, ticks=(4, 16), p_ctx_extra=0.1, p_poke=0.15)
+    cfg = cfg_with(p_period=0.35, p_inactive=0.3, nmain=(1, 4), nframes=(1, 5), naux=(0, 2), p_aux=0.3, p_caux=0.25, nslaves=(0, 1), p_fiat=0.3, p_bid=0.3, ticks=(4, 16), p_ctx_extra=0.1, p_poke=0.15)
     rule = ("small generated multi-framer programs (nested frames, plain and conditional auxiliaries, slaves, stop / abort bids at "
-            "drawn ticks, recorder actions in the enter and exit context of every frame); per program: one fault-free run, then "
+            "drawn ticks, recorder actions in the enter and exit context of every frame); per program: one fault-free run (whose top-level sends, end tick and final sweep are compared with the reference interpreter), then "
             "one run per crash point = every recorded action execution (all when <= 40, else 40 spread evenly) x {exception, "
             "keyboard interrupt}, plus 3 keyboard interrupts between ticks in real-time mode; non-trivial = a run was cut while "
             "at least two taskers were scheduled and one of them had nested frames entered; distinct = digest of (program, "
@@ -54,7 +54,7 @@ class C03(Check):
     assumptions = ["the tasker whose own action raised is not 'still scheduled': no abort and no exits are demanded for it",
                    "cut points are (tick, action) and the sleep between ticks, not arbitrary bytecode boundaries",
                    "slaves are not scheduled, so the sweep owes them nothing"]
-    required_probes = ["exception-reraised", "kbd-swallowed", "kbd-between-ticks", "swept-running-framer", "swept-nested", "crash-in-exit-action"]
+    required_probes = ["exception-reraised", "kbd-swallowed", "kbd-between-ticks", "swept-running-framer", "swept-nested", "crash-in-exit-action", "fault-free-termination-agrees"]
     quick_runs = 250
     thorough_runs = 12000
     shrink_fields = []
@@ -83,6 +83,41 @@ class C03(Check):
             out.violate("rejected", "well-formed program rejected or fault-free run raised", "built=%s exc=%r\n%s" % (base.built, base.exc, script[:2500]))
             out.digest = tr.digest()
             return out
+        # the fault-free run: which taskers are sent which control at which tick, up to and including the final sweep,
+        # against the reference interpreter (when the run ends and who is aborted by the sweep)
+        from flosim.model import Model
+        from flosim.cosim import norm_model, first_difference
+        capticks = plan.get("ticks", 20) + 12
+        model = Model(plan["program"], P, env_table=et, max_ticks=capticks + 50)
+        model.cap = capticks * P - P / 4
+        try:
+            model.run()
+        except Exception:
+            import traceback
+            raise RuntimeError("harness: reference model crashed\n%s\n%s" % (traceback.format_exc(), script))
+
+        def tops(events):
+            depth, o = 0, []
+            for e in events:
+                if e[1] == "send":
+                    if depth == 0:
+                        o.append((e[0], "send", e[2], e[3]))
+                    depth += 1
+                elif e[1] in ("sent", "raised"):
+                    depth -= 1
+            return o
+        ti, tm = tops(norm_impl(base.trace, P)), tops(norm_model(model.trace, P))
+        d = first_difference(ti, tm)
+        if d is not None:
+            a, b = (ti[d] if d < len(ti) else None), (tm[d] if d < len(tm) else None)
+            if a is None or b is None or a[0] != b[0]:
+                kind, sig = "termination", "fault-free run ends at a different tick than the reference interpreter (or the final sweep differs)"
+            else:
+                kind, sig = "schedule", "fault-free run sends a different tasker / control than the reference interpreter"
+            out.violate(kind, sig, "top-level send %d: implementation %r, reference %r (implementation has %d, reference %d)\n%s" % (d, a, b, len(ti), len(tm), script[:2500]))
+            out.digest = tr.digest()
+            return out
+        out.probe("fault-free-termination-agrees")
         n = base.state.recs
         points = list(range(n)) if n <= 40 else sorted(set(int(i * (n - 1) / 39.0) for i in range(40)))
         out.subruns = 1
